@@ -37,6 +37,10 @@ class RulesGen(WorldGen):
         self.hidden = set()        # ALT blocks that are never shown (unknown endorsed block)
         self.planted = {}          # block id -> mutation name
         self.ops = {}
+        self.now = 1700000000      # mirror of the registry's mocked clock (one tick per mining operation)
+        self.vbk["v0"]["ts"] = 1603044490
+        self.btc["b0"]["ts"] = 1296688602
+        self._bdeclared = {"b0"}
         self._vempty = {}          # vbk parent -> its empty child (mining twice on one parent gives the SAME block)
         self._bempty = {}
         self._vtbkeys = set()
@@ -49,10 +53,95 @@ class RulesGen(WorldGen):
         self.emit("decl " + " ".join(str(x) for x in w), "ok")
 
     def on(self, *words, tag=None):
+        if words[0] in ("verdict", "set") and getattr(self, "_now_declared", None) != self.now:
+            self._now_declared = self.now
+            self.decl("now", self.now)        # the mocked clock, for the model's "too far in the future" rule
         self.emit("on %s %s" % (self.inst, " ".join(words)))
         self.ops[words[0]] = self.ops.get(words[0], 0) + 1
         if tag is not None:
             self.tag(tag)
+
+    # ------------------------------------------------------------ clock / timestamps
+    def tick_ts(self, *vids):
+        """one registry mining operation happened: the clock advanced by one, the new VBK blocks carry
+        max(parent timestamp, clock)"""
+        self.now += 1
+        for v in vids:
+            self.vbk[v]["ts"] = max(self.vbk[self.vbk[v]["parent"]]["ts"], self.now)
+
+    def decl_vbk(self, v):
+        self.decl("vbk", v, self.vbk[v]["parent"], self.vbk[v]["height"], self.vbk[v]["ts"])
+        self.on("vtsof", v)
+
+    def decl_btc(self, b):
+        """declare BTC block b (and its not yet declared ancestors); blocks mined by the current operation carry
+        max(parent timestamp, clock)"""
+        todo = []
+        c = b
+        while c not in self._bdeclared:
+            todo.append(c)
+            c = self.btc[c]["parent"]
+        for x in reversed(todo):
+            if "ts" not in self.btc[x]:
+                self.btc[x]["ts"] = max(self.btc[self.btc[x]["parent"]]["ts"], self.now)
+            self._bdeclared.add(x)
+            self.decl("btc", x, self.btc[x]["parent"], self.btc[x]["height"], self.btc[x]["ts"])
+            self.on("btsof", x)
+
+    def bmtp(self, parent):
+        ts = []
+        c = parent
+        while c is not None and len(ts) < 11:
+            ts.append(self.btc[c]["ts"])
+            c = self.btc[c]["parent"]
+        ts.sort()
+        return ts[len(ts) // 2]
+
+    def make_bts(self, parent, ts):
+        """BTC header with a chosen (admissible) timestamp"""
+        bid = "b%d" % self.nb
+        self.nb += 1
+        self.btc[bid] = dict(parent=parent, height=self.btc[parent]["height"] + 1, ts=ts)
+        self.emit("on %s bts %s %d" % (self.inst, parent, ts), bid)
+        self.now += 1
+        if self.btc[bid]["height"] > self.btc[self.btip]["height"]:
+            self.btip = bid
+        self.decl_btc(bid)
+        return bid
+
+    def make_xvtbts(self, endorsed, last_known_btc, ts, vparent=None, bparent=None):
+        """VTB whose BTC block of proof carries a chosen timestamp (may be inadmissible)"""
+        bparent = self._uniq_bparent(endorsed, bparent)
+        n0 = len(self.lines)
+        btip0 = self.btip
+        ok = self.bmtp(bparent) <= ts <= self.now + 1 + 7200
+        w = WorldGen.make_vtb(self, endorsed, last_known_btc, vparent, bparent)
+        if not ok:
+            self.btip = btip0          # the miner's BTC tree does not get an inadmissible block: nothing is mined on it
+        self.lines[n0] = "on %s xvtbts %s %d" % (self.inst, self.lines[n0].split(" ", 1)[1], ts)
+        self.btc[self.vtb[w]["bop"]]["ts"] = ts
+        self._decl_vtb(w)
+        return w
+
+    def vmin(self, parent):
+        """minimum timestamp of a child of `parent`: lower median of the (up to) 20 timestamps ending at parent"""
+        ts = []
+        c = parent
+        while c is not None and len(ts) < 20:
+            ts.append(self.vbk[c]["ts"])
+            c = self.vbk[c]["parent"]
+        ts.sort()
+        return ts[(len(ts) - 1) // 2]
+
+    def make_vts(self, parent, ts):
+        """VBK header with a chosen timestamp"""
+        vid = "v%d" % self.nv
+        self.nv += 1
+        self.vbk[vid] = dict(parent=parent, height=self.vbk[parent]["height"] + 1, ts=ts)
+        self.emit("on %s vts %s %d" % (self.inst, parent, ts), vid)
+        self.now += 1
+        self.decl_vbk(vid)
+        return vid
 
     # ------------------------------------------------------------ miner (with declarations)
     def mine_vbk(self, parent=None):
@@ -61,7 +150,8 @@ class RulesGen(WorldGen):
             return self._vempty[parent]
         v = super().mine_vbk(parent)
         self._vempty[parent] = v
-        self.decl("vbk", v, self.vbk[v]["parent"], self.vbk[v]["height"])
+        self.tick_ts(v)
+        self.decl_vbk(v)
         return v
 
     def mine_btc(self, parent=None):
@@ -70,7 +160,8 @@ class RulesGen(WorldGen):
             return self._bempty[parent]
         b = super().mine_btc(parent)
         self._bempty[parent] = b
-        self.decl("btc", b, self.btc[b]["parent"], self.btc[b]["height"])
+        self.tick_ts()
+        self.decl_btc(b)
         return b
 
     def fresh_vbk(self, parent=None):
@@ -90,7 +181,8 @@ class RulesGen(WorldGen):
         payout = "%s%04x" % (payout or "aa", self.nt)
         t = super().make_atv(endorsed, vparent, payout)
         v = self.atv[t]["bop"]
-        self.decl("vbk", v, self.vbk[v]["parent"], self.vbk[v]["height"])
+        self.tick_ts(v)
+        self.decl_vbk(v)
         self.decl("atv", t, endorsed, v, "honest")
         self.atv[t]["ctx"] = self.honest_ctx(endorsed)
         self.on("atvinfo", t)
@@ -113,7 +205,8 @@ class RulesGen(WorldGen):
         self.emit("on %s atvn %s %s" % (self.inst, vparent, " ".join(words)), vid)
         if self.vbk[vid]["height"] > self.vbk[self.vtip]["height"]:
             self.vtip = vid
-        self.decl("vbk", vid, vparent, self.vbk[vid]["height"])
+        self.tick_ts(vid)
+        self.decl_vbk(vid)
         for tid, e in zip(tids, endorsed_list):
             self.decl("atv", tid, e, vid, "honest")
             self.on("atvinfo", tid)
@@ -135,7 +228,8 @@ class RulesGen(WorldGen):
         self.emit("on %s xatv %s %s %s %s %d %s %s" % (self.inst, tid, endorsed, vparent, payout, dh, k1, k2), vid)
         if self.vbk[vid]["height"] > self.vbk[self.vtip]["height"]:
             self.vtip = vid
-        self.decl("vbk", vid, vparent, self.vbk[vid]["height"])
+        self.tick_ts(vid)
+        self.decl_vbk(vid)
         self.decl("atv", tid, endorsed, vid, "%x" % ctx[0] if ctx[0] >= 0 else "-%x" % -ctx[0], ctx[1] or "-", ctx[2] or "-")
         self.on("atvinfo", tid)
         return tid
@@ -143,8 +237,11 @@ class RulesGen(WorldGen):
     def _decl_vtb(self, w):
         d = self.vtb[w]
         v, b = d["containing"], d["bop"]
-        self.decl("vbk", v, self.vbk[v]["parent"], self.vbk[v]["height"])
-        self.decl("btc", b, self.btc[b]["parent"], self.btc[b]["height"])
+        if "ts" not in self.vbk[v]:
+            self.tick_ts(v)
+            self.decl_btc(b)
+            self.decl_vbk(v)
+        self.decl_btc(b)
         self.decl("vtb", w, d["endorsed"], v, d["last"], ",".join(d["bctx"]))
         self.on("vtbinfo", w)
 
@@ -232,7 +329,6 @@ class RulesGen(WorldGen):
             self.vtip = vid
         if self.btc[b2]["height"] > self.btc[self.btip]["height"]:
             self.btip = b2
-        self.decl("btc", b1, bparent, self.btc[b1]["height"])
         self._decl_vtb(w1)
         self._decl_vtb(w2)
         return w1, w2
@@ -334,11 +430,11 @@ class RulesGen(WorldGen):
 # planted rule violations and boundary non-violations
 # ---------------------------------------------------------------------------------------------
 VIOLATIONS = ["fork", "expired1", "unknown", "ctxheight", "keystone1", "keystone2", "dup_atv", "dup_vbk", "dup_vtb",
-              "dup_final", "dup_finaljump", "vbkgap", "btcgap", "btcearly", "btcfork", "vtbcontaining", "vtbfork", "vtbexpired"]
-BOUNDARIES = ["timely0", "parent", "dup_otherfork", "vtbsame", "vtbsettle0", "plain"]
+              "dup_final", "dup_finaljump", "vbktime_old", "vbktime_new", "btctime_old", "btctime_new", "vbkgap", "btcgap", "btcearly", "btcfork", "vtbcontaining", "vtbfork", "vtbexpired"]
+BOUNDARIES = ["timely0", "parent", "dup_otherfork", "vtbsame", "vtbsettle0", "plain", "vbktime_min", "vbktime_max", "btctime_mtp"]
 EXPECT_KIND = {"fork": "differs", "expired1": "expired", "unknown": "sfendorsed", "ctxheight": "sfcontext",
                "keystone1": "sfcontext", "keystone2": "sfcontext", "dup_atv": "dup", "dup_vbk": "dup", "dup_vtb": "dup",
-               "dup_final": "dup", "dup_finaljump": "dup", "vbkgap": "vbkprev", "btcgap": "btcctx", "btcearly": "btcctx", "btcfork": "btcctx",
+               "dup_final": "dup", "dup_finaljump": "dup", "vbktime_old": "vbktime", "vbktime_new": "vbktime", "btctime_old": "btctime", "btctime_new": "btctime", "vbkgap": "vbkprev", "btcgap": "btcctx", "btcearly": "btcctx", "btcfork": "btcctx",
                "vtbcontaining": "vtbcontaining", "vtbfork": "vdiffers", "vtbexpired": "vexpired"}
 
 
@@ -479,6 +575,89 @@ def plant(g, m, P):
             known = g.alt[P]["kv"]
             g.set_pd(X, ctx=[r.choice(g.alt[B]["ctx"])])
             g.alt[X]["kv"] = set(known)
+        return X
+    if m in ("vbktime_old", "vbktime_min", "vbktime_new", "vbktime_max"):
+        # a VBK context chain with hand-picked, NON-MONOTONIC timestamps (each one admissible: at or above the lower
+        # median of the 20 blocks before it), then the header under test: one below the minimum timestamp /
+        # exactly the minimum / far beyond the future limit / exactly at the future limit
+        c = g.fresh_vbk()
+        T0 = g.vbk[c]["ts"]
+        hi = T0 + 250
+        style = 3 if (m == "vbktime_old" and r.chance(1, 2)) else r.below(4)
+        k = r.range(6, 34)
+        dip = []
+        if style == 3:
+            # >= 11 low blocks, 9 high ones (the median is still low), ONE dip, then exactly 10 high ones: the true
+            # minimum is now high, while the 11th newest block of the window is the dip
+            H, M = T0 + 200 + r.below(40), T0 + 60 + r.below(80)
+            dip = [T0] * r.range(11, 14) + [H] * 9 + [M] + [H] * 10
+            k = len(dip)
+        for j in range(k):
+            mn = g.vmin(c)
+            if style == 3:
+                ts = dip[j]
+            elif style == 0:
+                ts = r.range(mn, hi)
+            elif style == 1:
+                ts = (T0 + r.range(100, 250)) if r.chance(1, 2) else mn + r.below(3)
+            else:
+                # runs: low block, then high ones, one dip in the middle
+                ph = (j * 3) // max(1, k)
+                ts = mn + r.below(2) if (ph == 0 or r.chance(1, 8)) else T0 + 200 + r.below(50)
+            ts = max(mn, min(ts, hi))
+            c = g.make_vts(c, ts)
+        mn = g.vmin(c)
+        if m == "vbktime_old":
+            v = g.make_vts(c, mn - 1 - (r.below(3) if r.chance(1, 3) else 0))
+        elif m == "vbktime_min":
+            v = g.make_vts(c, mn)
+        elif m == "vbktime_new":
+            v = g.make_vts(c, g.now + 1 + 300 + 5000)
+        else:
+            v = g.make_vts(c, max(mn, g.now + 1 + 300))
+        X = g.new_alt(P)
+        if r.chance(1, 2) and m in ("vbktime_old", "vbktime_new"):
+            # the offending header is the block of proof of an ATV... not possible (its VBK tx must be in it); instead
+            # sometimes deliver the admissible part one block earlier
+            Q = X
+            g.set_pd(Q, extra_ctx=[c])
+            X = g.new_alt(Q)
+        g.set_pd(X, extra_ctx=[v])
+        if m in ("vbktime_min", "vbktime_max") and r.chance(1, 2):
+            # honest mining goes on above the boundary header
+            g.vtip = v if g.vbk[v]["height"] >= g.vbk[g.vtip]["height"] else g.vtip
+        return X
+    if m in ("btctime_old", "btctime_new", "btctime_mtp"):
+        # a VTB whose BTC context is a chain with hand-picked, non-monotonic (admissible) timestamps and whose block
+        # of proof is one below the median time past of 11 / exactly at it / far beyond the future limit
+        ref = g.alt[P]["kbref"]
+        vp = g.vtip
+        last = g.best_last(ref, vp)[-1]
+        c = g.btip if g.b_is_anc(last, g.btip) else last
+        T0 = max(g.btc[c]["ts"], g.now)
+        seq = None
+        if m == "btctime_old" and r.chance(1, 2):
+            # >= 6 low blocks, 5 high ones (the median of 11 is still low), one dip, 5 high ones: the true median is
+            # high while the 6th newest block is the dip
+            H, M = T0 + 2000 + r.below(500), T0 + 500 + r.below(1000)
+            seq = [T0] * r.range(6, 8) + [H] * 5 + [M] + [H] * 5
+        for j in range(len(seq) if seq else r.range(0, 16)):
+            mn = g.bmtp(c)
+            if seq:
+                ts = seq[j]
+            else:
+                ts = (T0 + r.range(100, 3000)) if r.chance(1, 2) else mn + r.below(3)
+            c = g.make_bts(c, max(mn, ts))
+        mn = g.bmtp(c)
+        ts = {"btctime_old": mn - 1 - r.below(2), "btctime_mtp": mn, "btctime_new": g.now + 1 + 7200 + 5000}[m]
+        X = g.new_alt(P)
+        w = g.make_xvtbts(r.choice(g.v_anc(vp, 3)), last, ts, vparent=vp, bparent=c)
+        g.set_pd(X, vtbs=[w])
+        if m != "btctime_mtp":
+            # the miner does not know the inadmissible block: honest payloads built later must not refer to it
+            bop = g.vtb[w]["bop"]
+            g.alt[X]["kb"].discard(bop)
+            g.alt[X]["kbref"].pop(bop, None)
         return X
     if m == "vbkgap":
         a = g.fresh_vbk()
@@ -853,7 +1032,7 @@ def compare_model(g, mres, ires, prefix):
     bad = []
     for i, line in enumerate(g.lines):
         w = line.split()
-        if len(w) < 4 or w[0] != "on" or w[2] not in ("verdict", "set", "atvinfo", "vtbinfo"):
+        if len(w) < 4 or w[0] != "on" or w[2] not in ("verdict", "set", "atvinfo", "vtbinfo", "vtsof", "btsof"):
             continue
         k = "%s.%d" % (prefix, i + 1)
         m, r = mres.get(k), ires.get(k)
@@ -862,7 +1041,7 @@ def compare_model(g, mres, ires, prefix):
         if r.startswith("SKIP"):
             continue
         n += 1
-        if w[2] in ("atvinfo", "vtbinfo"):
+        if w[2] in ("atvinfo", "vtbinfo", "vtsof", "btsof"):
             if m != r:
                 bad.append((i + 1, line, m, r, "info"))
             continue
@@ -1108,6 +1287,10 @@ def check(vlib, ctx, which, cases):
         ncmp += n
         nbad += len(bad)
         mine = f04 if which == "C04" else f19
+        if mirror:
+            # the registry did not do what the generator planned (only possible when the library's own miner
+            # misbehaves): the planned oracles say nothing about such a history
+            mine = []
         oracle = [t for (i, t) in orc if i.startswith(p + ".")]
         if which == "C19" and died:
             ctx.violation(to_replay(g, {"what": "the harness process died (assertion / abort) on an honest history",
